@@ -47,9 +47,10 @@ def jobs_for(prop, tier):
 
 
 def run(prop, tier, seed, replay=None):
-    design = [('MC_DefSys_quick', 'MC_DefSys_quick.cfg')]
+    design = [('MC_DefSys_quick', 'MC_DefSys_quick.cfg'), ('MC_DefinitionImpl', 'MC_DefinitionImpl_quick.cfg')]
     if tier == 'thorough':
         design.append(('MC_DefSys_thorough', 'MC_DefSys_thorough.cfg'))
+        design.append(('MC_DefinitionImpl', 'MC_DefinitionImpl_thorough.cfg'))
     rule = ('edges: every well-formed definition over the universe (built with the public constructor) x every call '
             'instance of DefSys.tla\'s Calls; paths2: a second call instance applied to a deep copy of the live object '
             'that went through the first; walks: seeded random histories over 8+8 / 4+4 names with up to 5 live '
